@@ -269,6 +269,14 @@ func c17R5(c *Ctx, rule string) {
 		}
 		n++
 		arg := cc.Args[1]
+		// the receiver captured by a closure of the caller lives in a cell assigned once: the load is the receiver
+		if ld, isLd := arg.(*ssa.UnOp); isLd {
+			if cell, isA := ld.X.(*ssa.Alloc); isA {
+				if sv := cellValue(cell, ld); sv != nil {
+					arg = sv
+				}
+			}
+		}
 		construct := "record passed to TerminateActiveUser in " + shortFn(f)
 		if prm, ok := arg.(*ssa.Parameter); ok && f.Signature.Recv() != nil && len(f.Params) > 0 && prm == f.Params[0] {
 			c.OK(rule, construct, c.at(site), "the caller's own receiver")
